@@ -2,7 +2,8 @@
 C08 / C07 / C09, the four release sites (`Mutex::release_lock`, `RwLock::release_read_lock`,
 `RwLock::release_write_lock`, the send into an empty channel): since the repair of finding F18 they wake the
 threads pending on the released object through `Thread.wake`, which touches BLOCKED threads only.  A thread
-that is not blocked — in particular one that holds an unpark token (`runnable true`) — keeps its entry.
+that is not blocked keeps its entry, and a woken thread keeps its `park` token (`Thread.token`, a field of its
+own since the repair of findings F5/F6: no release site, no acquisition and no `notify` ever changes it).
 -/
 import LoomVerif.Proofs.WorldBasics
 import LoomVerif.Proofs.C08Only
@@ -15,8 +16,27 @@ theorem wake_of_not_blocked {t : Thread} (h : t.state ≠ .blocked) : t.wake = t
   simp [Thread.wake, Thread.isBlocked, h]
 
 theorem wake_of_blocked {t : Thread} (h : t.state = .blocked) :
-    t.wake = { t with state := .runnable false } := by
+    t.wake = { t with state := .runnable, parked := false } := by
   simp [Thread.wake, Thread.isBlocked, Thread.setRunnable, h]
+
+/-- `Thread.wake`, `set_runnable`, `set_blocked` never touch the token -/
+theorem wake_token (t : Thread) : t.wake.token = t.token := by
+  unfold Thread.wake; split <;> rfl
+theorem setRunnable_token (t : Thread) : t.setRunnable.token = t.token := rfl
+theorem setBlocked_token (t : Thread) : t.setBlocked.token = t.token := rfl
+
+/-- `forOthers p f` with `f` keeping the token keeps every thread's token -/
+theorem forOthers_token (w : World) (p : Operation → Bool) (f : Thread → Thread)
+    (hf : ∀ t, (f t).token = t.token) (i : Nat) :
+    ((w.forOthers p f).ths.get i).token = (w.ths.get i).token := by
+  rw [forOthers_get]
+  split
+  · rfl
+  · split
+    · split
+      · exact hf _
+      · rfl
+    · rfl
 
 /-- `forOthers … Thread.wake` leaves every thread that is not blocked alone -/
 theorem forOthers_wake_get (w : World) (p : Operation → Bool) (i : Nat)
@@ -32,11 +52,12 @@ theorem forOthers_wake_get (w : World) (p : Operation → Bool) (i : Nat)
     · rfl
 
 /-- … and makes a blocked thread other than the active one whose pending operation satisfies `p`
-`runnable false` -/
+`runnable` (and no longer `parked`) -/
 theorem forOthers_wake_blocked (w : World) (p : Operation → Bool) (i : Nat) (op : Operation)
     (hi : i ≠ w.tid) (hop : (w.ths.get i).operation = some op) (hp : p op = true)
     (h : (w.ths.get i).state = .blocked) :
-    (w.forOthers p Thread.wake).ths.get i = { w.ths.get i with state := .runnable false } := by
+    (w.forOthers p Thread.wake).ths.get i =
+      { w.ths.get i with state := .runnable, parked := false } := by
   rw [forOthers_get, if_neg hi]
   split
   · next op' hop' =>
